@@ -1,5 +1,5 @@
 import sys, os, json, tempfile, collections
-sys.path.insert(0,'/verif'); sys.path.insert(0,'/repo/src')
+sys.path.insert(0,'/verif'); sys.path.insert(0, __import__('os').environ.get('VERIF_REPO_SRC', '/repo/src'))
 from harness import tlc, replay, interp
 for g in ("exp","sqrt"):
     d=tempfile.mkdtemp()
